@@ -17,7 +17,7 @@ ASSUMPTIONS = [
 ]
 OUTSIDE = ["container tags (tuples, lists, maps, funs), identifiers, LOCAL_EXT, COMPRESSED, FLOAT_EXT: the recursive parse_term / parse_term_borrowed pair is not "
            "executed", "equality of the decoded *values* beyond acceptance and the sign handed to BigInt::new (payload bytes are not modelled)",
-           "BorrowedTerm::to_owned", "the byte offset reported on rejection (ParsingContext)"]
+           "BorrowedTerm::to_owned beyond Nil / Integer / lists and tuples of up to 2 integers (one nesting level)", "the byte offset reported on rejection (ParsingContext)"]
 
 
 def bounds(tier):
@@ -33,6 +33,7 @@ def generate(tier, seed):
 def extra_checks(tier, seed):
     out = []
     c13_leaf.run(out)
+    c13_leaf.run_to_owned(out)
     return out
 
 
@@ -40,4 +41,6 @@ def replay_case(case):
     e = case.get("e2") or {}
     if "agree" in e:
         return c13_leaf.replay(e["agree"], e["in_len"], e["wire"])
+    if "to_owned_shape" in e:
+        return c13_leaf.replay_to_owned(e["to_owned_shape"])
     return None
